@@ -336,6 +336,51 @@ def run(ck):
     ok = any(try_fold(kwarg(c, 'ignore_keys'), default=()) == ('order', 'replace', 'modifications') and [u(a) for a in c.args] == ['node1', 'node2'] for c in amc)
     ck.ob('DT-attributes-match', mod.loc(mod.func('_atoms_match')), ok, 'link atoms are compared on every attribute except order, replace and modifications (handled separately)',
           key='DT-attributes-match|atoms_match')
+    # predicates usable as attribute values in links
+    ch = molmod.func('Choice.match')
+    nd = molmod.func('NotDefinedOrNot.match')
+    ck.ob('DT-attributes-match', molmod.loc(ch), u(ch.body[-1].value) == 'node.get(key) in self.value', 'Choice: the attribute is defined and among the listed values', key='DT-attributes-match|Choice')
+    f = flow.to_formula(nd.body[-1].value)
+    names = {}
+    for k in flow.atoms_of(f):
+        if k[0] == 'In' and k[1] == 'key' and k[2] == 'node':
+            names[k] = 'DEFINED'
+        elif k[0] == 'Eq' and set(k[1:]) == {'node[key]', 'self.value'}:
+            names[k] = 'SAME'
+    ck.ob('DT-attributes-match', molmod.loc(nd), len(names) == 2 and flow.equivalent(flow.rename(f, names), flow.parse_formula('not DEFINED or not SAME'))[0],
+          'NotDefinedOrNot: the attribute is absent or differs from the reference', key='DT-attributes-match|NotDefinedOrNot')
+    # _atoms_match: the modification condition of a link atom
+    atm = mod.func('_atoms_match')
+    ck.analysed(mod, atm)
+    mm = single_def(atm, 'mods_match')
+    ok = mm is not None
+    if ok:
+        f = flow.to_formula(mm)
+        names = {}
+        for k in flow.atoms_of(f):
+            t = atom_text(k)
+            if k[0] == 'In' and k[1] == "'modifications'" and k[2] == 'node2':
+                names[k] = 'LINKHAS'
+            elif k[0] == 'truth' and k[1] == "node2['modifications']":
+                names[k] = 'LINKMODS'
+            elif k[0] == 'truth' and k[1] == 'mods':
+                names[k] = 'MOLMODS'
+            elif k[0] == 'truth' and k[1] == "isinstance(node2['modifications'], list)":
+                names[k] = 'ISLIST'
+            elif k[0] == 'Eq' and set(k[1:]) == {'sorted(mods)', "sorted(node2['modifications'])"}:
+                names[k] = 'SAMESET'
+            elif k[0] == 'truth' and k[1].startswith('all((attributes_match(') and 'for modname in mods' in k[1]:
+                names[k] = 'EACHOK'
+        ok = len(names) == len(flow.atoms_of(f)) == 6 and flow.equivalent(
+            flow.rename(f, names), flow.parse_formula('not LINKHAS or (not LINKMODS and not MOLMODS) or (LINKMODS and MOLMODS and ((ISLIST and SAMESET) or EACHOK))'))[0]
+    ck.ob('DT-attributes-match', mod.loc(atm), ok, 'modifications of a link atom: no condition, or both empty, or both non-empty and (a list that equals the atom\'s modification names '
+          'as a set of names, or a value/choice that accepts every one of them)', key='DT-attributes-match|modifications')
+    rt = [s_ for s_ in atm.body if isinstance(s_, ast.Return)]
+    ck.ob('DT-attributes-match', mod.loc(atm), len(rt) == 1 and u(rt[0].value) == "bool(mods_match and attributes_match(node1, node2, ignore_keys=('order', 'replace', 'modifications')))",
+          'an atom fits a link atom when the modification condition and all its other attributes match', key='DT-attributes-match|atoms_match-result')
+    mods = [l for l in atm.body if isinstance(l, ast.For)]
+    ck.ob('DT-attributes-match', mod.loc(atm), len(mods) == 1 and u(mods[0].iter) == "node1.get('modifications', [])" and 'mods.extend(mod.name)' in u(mods[0]),
+          'the names of all modifications of the atom are collected', key='DT-attributes-match|collect-mods')
     # ------------------------------------------------------------ how the parser builds the conditions a link carries
     ffm = idx.mod(FF)
     pe = ffm.func('_parse_edges')
